@@ -263,3 +263,104 @@ def link_bm(spec, cfg, tier, seed):
     r.detail = f"bounded: {N} seeded random (message, <= t flips per block) cases through the real ChannelCodeModel with BerlekampMasseyDecoder, t={t}"
     r.wall_s = round(time.time() - t0, 2)
     return [r]
+
+
+# ---------------------------------------------------------------------------------------- soft-decision chains
+SOFT_PAIRS = [("spc", 3, "wagner"), ("spc", 2, "wagner"), ("polar", 8, 4, "sc_min_sum"), ("polar", 4, 2, "sc_min_sum"), ("rm", 1, 3, "rm_soft")]
+SOFT_MODS = [Cfg("bpsk"), Cfg("qpsk", "norm")]
+
+
+def _soft_pair(p):
+    import contextlib
+    import io
+
+    if p[0] == "spc":
+        from kaira.models.fec.decoders.wagner_soft_decision_decoder import WagnerSoftDecisionDecoder
+
+        enc = codes.build(Cfg("spc", p[1]))
+        return enc, WagnerSoftDecisionDecoder(enc), enc.code_dimension, enc.code_length
+    if p[0] == "polar":
+        from kaira.models.fec.decoders.successive_cancellation import SuccessiveCancellationDecoder
+        from kaira.models.fec.encoders.polar_code import PolarCodeEncoder
+
+        with contextlib.redirect_stdout(io.StringIO()):
+            enc = PolarCodeEncoder(p[2], p[1])
+            enc(torch.zeros(1, p[2]))  # warm the encoder's memoised masks natively
+            dec = SuccessiveCancellationDecoder(enc, regime="min_sum")
+        return enc, dec, p[2], p[1]
+    from kaira.models.fec.decoders.reed_muller_decoder import ReedMullerDecoder
+
+    enc = codes.build(Cfg("rm", p[1], p[2]))
+    return enc, ReedMullerDecoder(enc, input_type="soft"), enc.code_dimension, enc.code_length
+
+
+def _soft_cfgs(tier):
+    out = []
+    for pi, p in enumerate(SOFT_PAIRS):
+        for mi, mod in enumerate(SOFT_MODS):
+            n = p[1] if p[0] == "polar" else (p[1] + 1 if p[0] == "spc" else 2 ** p[2])
+            if n % mods.bits_per_symbol(mod):
+                continue
+            for chan in ("ideal", "displaced"):
+                if chan == "displaced" and mod[0] == "qpsk" and n > 4:
+                    continue  # max-log LLRs of displaced QPSK symbols are quadratic in delta: beyond the solver budget for 8-bit codes
+                for nv in (("sym",) if chan == "ideal" else ("0.1", "2.5")):
+                    out.append(Cfg("soft", "_".join(str(v) for v in p), str(mod), chan, pi, mi, nv))
+    return out
+
+
+@obligation(
+    "C09.soft_link",
+    function=FM + "channel_code.py:ChannelCodeModel.__init__; " + FM + "generic/sequential.py:SequentialModel.forward; kaira/modulations/psk.py:BPSKDemodulator.forward; kaira/modulations/psk.py:QPSKDemodulator.forward; kaira/models/fec/decoders/wagner_soft_decision_decoder.py:WagnerSoftDecisionDecoder.forward; kaira/models/fec/decoders/successive_cancellation.py:SuccessiveCancellationDecoder.forward; kaira/models/fec/decoders/reed_muller_decoder.py:ReedMullerDecoder.forward",
+    configs=_soft_cfgs,
+    max_paths=4000,
+    timeout_ms=60000,
+    crosscheck=1,
+)
+def soft_link(ctx, cfg):
+    """soft demodulation (noise_var forwarded through the pipeline) feeding a soft-input decoder: decoded == message over the ideal
+    channel and for every displacement inside the polyhedral set containing the half-minimum-distance ball, for every noise variance > 0"""
+    from kaira.channels.identity import PerfectChannel
+    from kaira.channels.lambda_channel import LambdaChannel
+    from kaira.constraints.identity import IdentityConstraint
+    from kaira.models.channel_code import ChannelCodeModel
+
+    _, _, _, chan, pi, mi, nvs = cfg
+    enc, dec, k, n = _soft_pair(SOFT_PAIRS[pi])
+    mod = SOFT_MODS[mi]
+    modulator, demodulator = mods.build(mod)
+    modulator.eval()
+    demodulator.eval()
+    b = modulator.bits_per_symbol
+    nsym = n // b
+    msg = ctx.bits("m", (1, k))
+    # ideal channel: every noise variance > 0 (symbolic); displaced symbols: a concrete grid of variances keeps the LLRs linear in delta
+    if nvs == "sym":
+        nv = ctx.scalar("noise_var", "real", sampler=lambda r: r.choice([0.01, 0.1, 1.0, 7.5]))
+        ctx.assume(S.lt(0, nv))
+    else:
+        nv = float(nvs)
+    if chan == "ideal":
+        channel = PerfectChannel()
+    else:
+        const = modulator.constellation
+        cre = [Fraction(float(v)) for v in (const.real if const.is_complex() else const).tolist()]
+        cim = [Fraction(float(v)) for v in (const.imag.tolist() if const.is_complex() else [0.0] * len(cre))]
+        lim = dmin_sq(cre, cim) / 4
+        delta = ctx.complexes("delta", (1, nsym), sampler=lambda r, s=float(lim) ** 0.5: r.uniform(-0.6, 0.6) * s)
+        dr, di = (a.reshape(-1) for a in PC(delta))
+        for s_ in range(nsym):
+            for i in range(len(cre)):
+                for j in range(len(cre)):
+                    if i != j:
+                        ar, ai = cre[j] - cre[i], cim[j] - cim[i]
+                        ctx.assume(S.lt(S.add(S.mul(ar, dr[s_]), S.mul(ai, di[s_])), (ar * ar + ai * ai) / 2 * Fraction(999999, 1000000)))
+        channel = LambdaChannel(lambda x, *a, **kw: x + delta)
+    model = ChannelCodeModel(encoder=enc, constraint=IdentityConstraint(), modulator=modulator, channel=channel, demodulator=demodulator, decoder=dec)
+    nvt = ctx.tensor(np.asarray(nv, dtype=object)) if (ctx.mode == "sym" and nvs == "sym") else torch.tensor(float(nv))
+    out = ctx.call(model.forward, msg, noise_var=nvt)
+    ctx.ensure("returns", out.ok, note=repr(out.exc) if not out.ok else "")
+    if not out.ok:
+        return
+    res = out.value[0] if isinstance(out.value, tuple) else out.value
+    ctx.ensure("message_recovered", tuple(res.shape) == (1, k) and SP.all_eq(P(res), P(msg)))
